@@ -281,9 +281,10 @@ def thread_queries(repo, fns_list, K, log, native, result):
         try:
             rc, out = native("thread_loop", [])
         except Exception as e:  # noqa
-            rc, out = -1, repr(e)
-        rep = "THREAD-LOOP-REPRODUCED" in out
-        r["native_replay"] = {"bin": "thread_loop", "reproduced": rep, "tail": out[-300:]}
+            rc, out = 1, repr(e)
+        crashed = rc >= 128 or rc < 0        # the real build died on a signal (e.g. the lent cache used after its caller was released)
+        rep = "THREAD-LOOP-REPRODUCED" in out or crashed
+        r["native_replay"] = {"bin": "thread_loop", "reproduced": rep, "exit": rc, "tail": out[-300:]}
         log(f"[E2] native replay thread_loop: {'reproduced' if rep else 'NOT reproduced'}")
         if not rep:
             r["outcome"] = "inconclusive"
